@@ -72,6 +72,7 @@ static int g_manifest_variant;
 static const char* g_msg_fresh = "C04: a command starts only after every producer of what it reads has brought it up to date";
 static const std::string* g_dyndep_override;     // when set: the text the command producing g_dyndep_override_out writes instead of its spec's
 static const char* g_dyndep_override_out = "dd";
+static const std::string* g_depfile_override;    // when set: the bytes every command writes into its depfile (C13: arbitrary depfile content through both consumers)
 static bool g_mkdir_may_fail;          // directory creation may fail (permissions, a file in the way)
 static bool g_dead;                    // the simulated process has died: nothing ninja does persists any more (C07)
 static void persistence_event() { if (verif_vfs_event()) g_dead = true; }     // one event counter for DiskInterface and stdio/unistd mutations
@@ -135,7 +136,10 @@ static void build_reference(State* st) {
     if (e->GetBinding("deps").empty()) r.plain_depfile = e->GetUnescapedDepfile();
     r.depfile = e->GetUnescapedDepfile(); r.rspfile = e->GetUnescapedRspfile(); r.rspfile_content = e->GetBinding("rspfile_content"); r.pool_name = e->pool()->name(); r.pool_depth = e->pool()->depth(); r.console = e->use_console(); r.deps_type = e->GetBinding("deps");
     const CmdSpec* s = spec_for(r.outs[0]); r.flags = s ? s->flags : 0;
-    if (s) { std::vector<std::string> x = split_words(s->extra_reads); for (size_t q = 0; q < x.size(); q++) { bool have = false; for (size_t z = 0; z < r.reads.size(); z++) have = have || r.reads[z] == x[q]; if (!have) r.reads.push_back(x[q]); }
+    if (s) { std::vector<std::string> x = split_words(s->extra_reads);
+             // "one.h|two.h": which of the two the command includes depends on the current text of its first declared input (the source switched its #include)
+             for (size_t q = 0; q < x.size(); q++) { size_t bar = x[q].find('|'); if (bar == std::string::npos) continue; VFile* f0 = r.reads.empty() ? NULL : g_tree->find(r.reads[0]); bool second = f0 && f0->exists && (f0->content & 1); x[q] = second ? x[q].substr(bar + 1) : x[q].substr(0, bar); }
+             for (size_t q = 0; q < x.size(); q++) { bool have = false; for (size_t z = 0; z < r.reads.size(); z++) have = have || r.reads[z] == x[q]; if (!have) r.reads.push_back(x[q]); }
              if (s->dyndep_text) r.flags |= 0; }
     g_ref.push_back(r);
   }
@@ -324,7 +328,7 @@ struct SymRunner : public CommandRunner {
     std::vector<std::string> reads = read_set(e);
     std::string dep = e->GetUnescapedDepfile();
     if (!dep.empty()) { std::string t = e->outputs_[0]->path() + ":"; size_t nd = reads.size(); for (size_t z = 0; z < g_ref.size(); z++) if (g_ref[z].ordinal == ord) nd = g_ref[z].ndeclared;
-      for (size_t q = 0; q < reads.size(); q++) t += ((r.flags & NONCANONICAL_DEPFILE) && q >= nd ? " ./" : " ") + reads[q]; t += "\n"; g_tree->write_text(dep, t); }
+      for (size_t q = 0; q < reads.size(); q++) t += ((r.flags & NONCANONICAL_DEPFILE) && q >= nd ? " ./" : " ") + reads[q]; t += "\n"; if (g_depfile_override) t = *g_depfile_override; g_tree->write_text(dep, t); }
     if (opt.prints_output && !e->use_console() && verif_bool("command_prints")) { output += "<<out " + e->outputs_[0]->path() + ">>\npart two of " + e->outputs_[0]->path() + "\n"; events.push_back("printed " + e->outputs_[0]->path()); }
     if (e->GetBinding("deps") == "msvc") { for (size_t q = 0; q < reads.size(); q++) output += "Note: including file: " + reads[q] + "\n"; }
     if (ord < 16) { g_last[ord].ran = true; g_last[ord].snap = r.snap; g_last[ord].command = e->EvaluateCommand(true); }
@@ -446,7 +450,9 @@ static void init_tree(const Scenario* sc) {
   for (int i = 0; i < 16; i++) g_last[i] = LastRun();
   g_sc = sc; g_tree = new Tree; g_manifest_variant = 0; g_mkdir_may_fail = false; g_dead = false;
   std::vector<std::string> src = split_words(sc->sources);
-  for (size_t i = 0; i < src.size(); i++) { VFile f; f.name = src[i]; f.exists = true; f.mtime = 1; f.content = 100 + 10 * (long)i; f.is_text = false; g_tree->files.push_back(f); }
+  for (size_t i = 0; i < src.size(); i++) { VFile f; f.name = src[i]; f.exists = true; f.mtime = 1; f.content = 100 + 10 * (long)i; f.is_text = false; if (src[i].compare(0, 2, "eq") == 0) f.content = 501; g_tree->files.push_back(f); }      // files named eq* start out with equal (odd) contents: the next edit changes what a HALVE command makes of them
+  // a dyndep file that is checked in rather than generated: a source holding the dyndep text
+  for (int i = 0; i < 10 && sc->cmds[i].out; i++) if (sc->cmds[i].dyndep_text) for (size_t k = 0; k < src.size(); k++) if (src[k] == sc->cmds[i].out) { VFile* f = g_tree->find(src[k]); f->is_text = true; f->text = sc->cmds[i].dyndep_text; }
   if (scenario_regenerates()) { VFile f; f.name = "build.ninja"; f.exists = true; f.mtime = 1; f.content = 1; f.is_text = false; g_tree->files.push_back(f); }
 }
 static std::vector<std::string> symbolic_targets(const Scenario* sc, const char* tag) {
@@ -522,5 +528,5 @@ struct MinRef {
   }
 };
 static bool same_set(std::vector<int> a, std::vector<int> b) { if (a.size() != b.size()) return false; for (size_t i = 0; i < a.size(); i++) { bool f = false; for (size_t k = 0; k < b.size(); k++) f = f || a[i] == b[k]; if (!f) return false; } return true; }
-static void edit_file(const std::string& name, int amount = 1) { VFile* f = g_tree->get(name); f->exists = true; f->is_text = false; f->content += amount; f->mtime = g_tree->tick(); }
+static void edit_file(const std::string& name, int amount = 1) { VFile* f = g_tree->get(name); if (f->exists && f->is_text) return;      /* (checked-in dyndep files are not edited) */ f->exists = true; f->is_text = false; f->content += amount; f->mtime = g_tree->tick(); }
 #endif
